@@ -727,6 +727,17 @@ func (ev *evaluator) selectField(base SV, sel string, x Expr) SV {
 	for i := 0; i < s.NumFields(); i++ {
 		f := s.Field(i)
 		if f.Embedded() {
+			// embedded pointer to a struct: follow the pointer
+			if _, isPS := isStructPtr(f.Type()); isPS {
+				inner := SV{tSelect(ev.heap(structHeapName(n, f.Name()), SInt), obj), f.Type()}
+				if _, es := structOf(f.Type()); es != nil {
+					for j := 0; j < es.NumFields(); j++ {
+						if es.Field(j).Name() == sel {
+							return ev.selectField(inner, sel, x)
+						}
+					}
+				}
+			}
 			if _, nested := isNestedStructField(f.Type()); nested {
 				inner := SV{tSelect(ev.heap(structHeapName(n, f.Name()), SInt), obj), f.Type()}
 				if _, es := structOf(f.Type()); es != nil {
@@ -920,6 +931,28 @@ func (ev *evaluator) evalCall(x *ECall) SV {
 			return SV{slArr(t), nil}
 		}
 		return SV{slOff(t), nil}
+	case "called":
+		// called(g): the call whose result is bound to ghost g was reached (and returned) on this path
+		id2, ok := x.Args[0].(*EIdent)
+		if !ok {
+			ev.fail("called() takes a ghost name")
+		}
+		key, ok := ev.fc.ghostKeys[id2.Name]
+		if !ok {
+			ev.fail("called(%s): not a ghost call binding", id2.Name)
+		}
+		if v, ok := ev.curState().cells[cellKey{0, "called:" + key}].(Term); ok {
+			return SV{v, boolT}
+		}
+		return SV{tFalse, boolT}
+	case "anyOf":
+		// anyOf(h): the header h boxed into an `any` value (e.g. pubsub.Message.ValidatorData)
+		h, _ := ev.evalTerm(x.Args[0])
+		if h.Sort != SHdr {
+			ev.fail("anyOf() takes a header")
+		}
+		ev.fc.declareAnyHdr()
+		return SV{app(SInt, "anyHdr", h), nil}
 	case "reqOrigin", "reqHash", "reqIsOrigin", "reqIsHash":
 		// accessors of the protobuf oneof HeaderRequest.Data (mirror the generated GetOrigin/GetHash)
 		r, _ := ev.evalTerm(x.Args[0])
